@@ -183,7 +183,7 @@ NOT_EXCEEDING = {  # (op, const side) -> truth value on the edge where "counter 
 }
 
 
-def find_guard(body, bb, crate):
+def find_guard(body, bb, crate, helpers=True):
     """Is block `bb` (a call site) dominated by the within-limit edge of a counter-against-constant test, the
     counter having been incremented (field or local) or pushed (collection length) before, with the exceeding
     edge unable to reach bb?  Returns a description dict or None."""
@@ -221,6 +221,55 @@ def find_guard(body, bb, crate):
                 kind = counter_kind(body, leaves, tr, sb, bb, tgt)
                 if kind:
                     return {"switch": sb, "limit": const, "kind": kind, "where": body.where(sb)}
+    if helpers:
+        return find_gate_call(body, bb, crate)
+    return None
+
+
+def ok_edges_of_call(body, crate, call_bb):
+    """(switch block, target) edges on which the Result/Option/ControlFlow produced by the call at call_bb is Ok/Some/Continue"""
+    ef = EdgeFacts(body, crate)
+    tr = Tracer(body)
+    out = []
+    for sb in sorted(body.reachable):
+        tt = body.term(sb)
+        if tt["k"] != "switch" or tt["op"]["k"] == "const" or tt["op"]["pl"]["p"]:
+            continue
+        d = ef.single_def(tt["op"]["pl"]["l"])
+        if d and d[3]["k"] == "discr":
+            leaves = tr.place(d[3]["pl"])
+            if leaves and all(l.kind == "call" and l.detail[2] == call_bb for l in leaves):
+                for tgt, fl in ef.facts_for_switch(sb).items():
+                    for f in fl:
+                        if f[0] == "variant" and len(f[3]) == 1 and (f[3] & {"Continue", "Ok", "Some"}) and tgt != sb:
+                            out.append((sb, tgt))
+    return out
+
+
+def find_gate_call(body, bb, crate):
+    """the guard factored out into a helper: bb is dominated by the success edge of `h(..)?` where every Ok that the crate-local
+    function h builds is itself dominated by a depth guard (find_guard inside h)"""
+    for cb, t in body.calls():
+        if cb == bb or not body.dominates(cb, bb):
+            continue
+        names = callee_names(t)
+        h = None
+        for n in names:
+            h = crate.bodies.get(n) or h
+        if h is None or h is body or h.kind == "const":
+            continue
+        if not any(body.dominates(tgt, bb) for sb, tgt in ok_edges_of_call(body, crate, cb)):
+            continue
+        from engine import find_aggs
+        oks = [b2 for b2, idx, st in find_aggs(h, "std::result::Result", "Ok")]
+        if not oks:
+            continue
+        gs = [find_guard(h, ob, crate, helpers=False) for ob in oks]
+        if all(gs):
+            g = dict(gs[0])
+            g["kind"] = g["kind"] + " (in helper %s)" % h.path.rsplit("::", 1)[-1]
+            g["where"] = h.where(g["switch"])
+            return g
     return None
 
 
